@@ -509,7 +509,11 @@ func (g *G) BoolExpr(env *varEnv, depth int) ref.Expr {
 
 // FailingExpr returns an expression that fails with an error for every binding.
 func (g *G) FailingExpr(env *varEnv) ref.Expr {
-	switch g.R.Intn(4) {
+	switch g.R.Intn(6) {
+	case 4: // the failing operation comes last, with an operand still waiting for it
+		return ref.Bin("==", lit(ref.Int(1)), ref.Bin("/", lit(ref.Int(1)), lit(ref.Int(0))))
+	case 5:
+		return ref.Bin("&&", lit(ref.Bool(true)), ref.Bin("<", lit(ref.Str("a")), lit(ref.Str("b"))))
 	case 0:
 		return ref.Bin("==", ref.Bin("/", lit(ref.Int(1)), lit(ref.Int(0))), lit(ref.Int(1)))
 	case 1:
